@@ -6,7 +6,7 @@ and the leaf predicates (`:nth-*` index test, attribute operators) as the code c
 Rust anchors:
   src/selectors_vm/parser.rs:118-188   validate_component — the accepted component forms are exactly
                                         the constructors of `Simple` / `Comb` below
-  src/selectors_vm/ast.rs:8-39          NthChild::has_index
+  src/selectors_vm/ast.rs:8-36          NthChild::has_index
   src/selectors_vm/attribute_matcher.rs AttributeMatcher (find / has_id / has_class / six operators)
 The CSS *text* parser (cssparser + selectors crate) is outside the model: the model starts from
 the component list.
@@ -103,16 +103,15 @@ def esiVoid : List Bytes :=
 def isVoidElement (localName : Bytes) (enableEsiTags : Bool) : Bool :=
   voidElements.contains (asciiLowerBytes localName) || (enableEsiTags && esiVoid.contains localName)
 
-/-! ## `:nth-*` index test (ast.rs:20-38) on 32-bit two's-complement integers -/
-
-def wrapI32 (x : Int) : Int := (x + 2147483648) % 4294967296 - 2147483648
+/-! ## `:nth-*` index test (ast.rs:20-35): the difference and the remainder are computed in `i64`,
+where neither can overflow for `i32` operands, so they are exact integer operations. -/
 
 /-- `NthChild::has_index`: `step`/`offset` are the selector's `a`/`b`, `index` the 1-based counter. -/
 def hasIndex (step offset index : Int) : Bool :=
-  let offsetted := wrapI32 (index - offset)
+  let offsetted := index - offset
   if step == 0 then offsetted == 0
   else if (decide (offsetted < 0) && decide (step > 0)) || (decide (offsetted > 0) && decide (step < 0)) then false
-  else wrapI32 (offsetted.tmod step) == 0
+  else offsetted.tmod step == 0
 
 /-! ## Attribute matcher (attribute_matcher.rs) -/
 
@@ -178,16 +177,16 @@ def isInfixCase (ins : Bool) (s : Bytes) : Bytes → Bool
   | b :: rest => isPrefixCase ins s (b :: rest) || isInfixCase ins s rest
 
 /-- The six operator functions of `AttributeMatcher` on an attribute value that is present, exactly
-    as coded (note the emptiness tests of prefix/suffix look at the *element's* value). -/
+    as coded. -/
 def opMatchesCode (op : AttrOp) (ins : Bool) (actual operand : Bytes) : Bool :=
   match op with
   | .eq => caseEq ins actual operand                                        -- attr_eq
-  | .includes => (splitOnWs actual).any fun part => caseEq ins part operand  -- matches_splitted_by_whitespace
-  | .pfx => !actual.isEmpty && isPrefixCase ins operand actual              -- has_attr_with_prefix
+  | .includes => !operand.isEmpty && (splitOnWs actual).any fun part => caseEq ins part operand  -- matches_splitted_by_whitespace
+  | .pfx => decide (operand.length ≠ 0) && isPrefixCase ins operand actual  -- has_attr_with_prefix
   | .dashMatch =>                                                           -- has_dash_matching_attr
     caseEq ins actual operand ||
       (actual[operand.length]? == some 45 && isPrefixCase ins operand actual)
-  | .sfx => !actual.isEmpty && isSuffixCase ins operand actual              -- has_attr_with_suffix
+  | .sfx => decide (operand.length ≠ 0) && isSuffixCase ins operand actual  -- has_attr_with_suffix
   | .substring => !operand.isEmpty && isInfixCase ins operand actual        -- has_attr_with_substring
 
 /-- `value_matches` + operator, the name is lower-cased at compile time (compiler.rs:124). -/
